@@ -184,11 +184,18 @@ func cmdVerify(args []string) int {
 			if o.Status != "discharged" || verbose {
 				fmt.Printf("   %-11s %s  (%d VCs, %s, %dms) %s\n", o.Status, o.Name, len(o.VCs), o.Backend, o.Millis, o.Detail)
 			}
+			if pat := os.Getenv("GVC_DUMP"); pat != "" && strings.Contains(o.Name, pat) {
+				for k, vc := range o.VCs {
+					f := filepath.Join(os.TempDir(), fmt.Sprintf("gvc_dbg_%d.smt2", k))
+					os.WriteFile(f, []byte(DumpVC(fr, vc)), 0o644)
+					fmt.Println("      debug dump", f, vc.Path)
+				}
+			}
 			if o.Status != "discharged" {
 				rc = 1
 				if dump {
 					for _, vc := range o.VCs {
-						if vc.Res != nil && vc.Res.Status != "unsat" && o.Expect == "" {
+						if vc.Res != nil && (vc.Res.Status != "unsat" || o.Expect == "sat") {
 							f := filepath.Join(os.TempDir(), "gvc_dump_"+mangle(o.Name)+".smt2")
 							os.WriteFile(f, []byte(DumpVC(fr, vc)), 0o644)
 							fmt.Println("      dumped", f)
